@@ -206,8 +206,9 @@ C15_RULE = ("classes of grammar text, each counted: valid model grammars (canoni
             "with the hang budget). Visibility: for a sample of failing and succeeding grammars the peginator-cli binary built from the tree, "
             "Compile::run() and run_exit_on_error() are run as processes: failure => non-zero status and no generated code on stdout, success => 0. "
             "Non-trivial = the case reached code generation or is a restriction violator; distinct by text.")
-C18_RULE = ("stateful PBT: history = configuration (file | directory mode with 1-3 grammar files in nested dirs plus a non-.ebnf file, explicit | default "
-            "destination, format on/off) + 3-26 operations from {edit grammar to a valid / invalid / the same text, set prefix (pool with prefixes of each "
+C18_RULE = ("stateful PBT: history = configuration (file | directory mode with 1-3 grammar files in nested dirs plus a non-.ebnf file, in a quarter of the multi-file cases with the sub-directory "
+            "being a symbolic link to a directory outside the source directory; explicit | default "
+            "destination, format on/off) + 3-26 operations from {edit grammar to a valid text (pool with neighbours differing only in whitespace inside a literal / in layout / in the line-end convention) / an invalid one (syntax error, generator error, bytes that are not UTF-8) / the same text, set prefix (pool with prefixes of each "
             "other, the empty one, one starting with a comment, one starting with a newline, one rustfmt rewrites), delete destination, remove grammar, "
             "run}; model: expected destination = header(text) + optional extra // header lines + newline + prefix + newline + library code (through rustfmt "
             "when formatting). Invariants after every run: Ok iff all grammars valid; success => destination equals the model; nothing changed since the "
